@@ -4,6 +4,10 @@ Proof : coq/C20 (FsTrace syscall model; safe_publish recogniser; every prefix of
         payload in ANY chunking through a user-space buffer of ANY capacity, then flush+close+rename, is accepted and
         publishes exactly the payload; with the rename before flush+close it is rejected and, whenever bytes are
         pending in user space at the rename, the prefix ending with the rename shows a strict prefix of the payload.
+        ModelMove.v / ProofsMove.v: the temp file is MOVED into place (shutil.move = rename, or across file systems copy
+        onto the published name): on one file system (temp a sibling of the output) the trace is the close-then-rename
+        producer - accepted, publishes the payload; across file systems it is rejected and, for every cut of the copy,
+        some crash prefix shows exactly the part copied so far (the empty file right after the open) at FINAL.
 Tie   : every producer runs in a subprocess under `strace -f`; the log is abstracted to FsTrace ops and (1) the
         extracted recogniser must accept it for every published path - fault-free, with an injected ENOSPC/EIO at
         every tracked syscall, and for every killed prefix; (2) the extracted `run` must predict the bytes found on
@@ -17,7 +21,15 @@ Payload sizes are part of the case space: what a kill loses is the user-space bu
         with r < buffer and r > buffer, random non-multiples: `name@N` scenarios), and the positions right before and
         right after EVERY rename are killed / faulted whatever the stride of the tier.  A fault-free trace the
         recogniser rejects (or the model mispredicts) switches its group to stride 1: the verdict fails closed, the
-        search for a concrete partial file goes on."""
+        search for a concrete partial file goes on.
+The ENVIRONMENT of a producer run is part of "every producer run" as well: how the caller spells the output path
+        (absolute / a BARE file name with cwd = the output directory / `./name`) and where $TMPDIR lives (untouched /
+        a directory on ANOTHER FILE SYSTEM than the output directory).  Scenarios `name[@N]%flags` (flags rel, dot,
+        xdev, tmp; see vt/harness/c20_producers.py) run every producer in those environments; $TMPDIR is then a
+        tracked directory too.  A temp file that is a sibling of the output is renamed as before; a temp file that
+        landed in $TMPDIR and is "moved" shows rename -> EXDEV followed by a write-open of the published path itself
+        (copy fallback), which the recogniser rejects and the kill enumeration turns into a truncated file under
+        the final name.  A producer that fails cleanly with EXDEV (old version intact) is NOT reported."""
 import concurrent.futures as cf
 import io
 import json
@@ -45,7 +57,7 @@ WRITER_STEP = 7000           # the dummy render writer of the harness writes in 
 CORPUS = os.path.join(core.VERIF, "corpus", "C20")
 STALE = {"status.json": "status.json.tmp", "img.png": "img.png\xb7"}
 FAULTABLE = ("openat", "write", "pwrite64", "close", "rename", "renameat", "renameat2", "unlink", "unlinkat", "mkdir",
-             "ftruncate", "fsync", "lseek")
+             "ftruncate", "fsync", "sendfile", "copy_file_range", "lseek")     # lseek stays last: [:-1] = quick tier
 ERRORS = ("ENOSPC", "EIO")
 
 
@@ -66,8 +78,70 @@ def old_version(name):
     raise KeyError(name)
 
 
+ENV_FLAGS = ("rel", "dot", "xdev", "tmp")      # same grammar as vt/harness/c20_producers.py (not imported: that module
+                                               # silences logging/warnings of the process that imports it)
+
+
+def base_scenario(scenario):
+    """'create@9%rel+xdev' -> 'create@9': the payload; what follows '%' is the environment of the run"""
+    return scenario.split("%", 1)[0]
+
+
+def scenario_flags(scenario):
+    if "%" not in scenario:
+        return frozenset()
+    fl = frozenset(scenario.split("%", 1)[1].split("+"))
+    if not fl <= set(ENV_FLAGS) or {"rel", "dot"} <= fl or {"xdev", "tmp"} <= fl:
+        raise ValueError("bad environment flags in scenario %r" % scenario)
+    return fl
+
+
 def scenario_size(scenario):
+    scenario = base_scenario(scenario)
     return int(scenario.split("@", 1)[1]) if "@" in scenario else None
+
+
+def other_fs_root(base):
+    """a fresh directory on a file system OTHER than the one holding `base` (for $TMPDIR of the %xdev environments),
+    or None: then EXDEV is emulated by the LD_PRELOAD shim between two directories of one file system"""
+    if os.environ.get("VERIF_C20_NO_XDEV_FS"):
+        return None
+    dev = os.stat(base).st_dev
+    cands = [os.environ.get("VERIF_C20_XDEV_DIR"), "/dev/shm", "/run/shm", "/tmp", "/run/user/%d" % os.getuid(), "/run"]
+    for c in cands:
+        try:
+            if not c or not os.path.isdir(c) or os.stat(c).st_dev == dev or not os.access(c, os.W_OK | os.X_OK):
+                continue
+            for e in os.listdir(c):              # left behind by a check that was killed (tmpfs = memory)
+                if e.startswith("verif-c20-") and e[10:].isdigit() and not os.path.exists("/proc/" + e[10:]):
+                    shutil.rmtree(os.path.join(c, e), ignore_errors=True)
+            d = os.path.join(os.path.realpath(c), "verif-c20-%d" % os.getpid())
+            shutil.rmtree(d, ignore_errors=True)
+            os.makedirs(d)
+            if os.stat(d).st_dev != dev:
+                return d
+            shutil.rmtree(d, ignore_errors=True)
+        except OSError:
+            continue
+    return None
+
+
+def env_setup(job, D, cdir):
+    """-> (T, extra process environment) for the environment flags of the job's scenario"""
+    flags = scenario_flags(job["scenario"])
+    extra = {}
+    T = None
+    if flags & {"xdev", "tmp"}:
+        if "xdev" in flags and job.get("xroot"):
+            T = os.path.join(job["xroot"], "cases", "%05d" % job["n"], "t")
+        else:
+            T = os.path.join(cdir, "t")
+            if "xdev" in flags:
+                extra["LD_PRELOAD"] = job["shim"]
+                extra["C20_XDEV"] = "%s:%s" % (os.path.realpath(D), os.path.realpath(cdir) + "/t")
+        os.makedirs(T)
+        extra["TMPDIR"] = T
+    return T, extra
 
 
 def size_plan(rng, tier, B, chunk, io_default):
@@ -102,7 +176,8 @@ def size_plan(rng, tier, B, chunk, io_default):
 
 
 def load_corpus():
-    """corpus/C20/*.json: minimised past failures {producer, scenario, old}: always enumerated with stride 1"""
+    """corpus/C20/*.json: minimised past failures {producer, scenario, old}: always enumerated with stride 1 (an entry
+    may lower that with "kill": n / "faults": {..} when a generated family already covers its class)"""
     res = []
     if os.path.isdir(CORPUS):
         for fn in sorted(os.listdir(CORPUS)):
@@ -110,8 +185,14 @@ def load_corpus():
                 with open(os.path.join(CORPUS, fn)) as f:
                     o = json.load(f)
                 if o.get("producer") in PRODUCERS and isinstance(o.get("scenario"), str):
-                    res.append({"producer": o["producer"], "scenario": o["scenario"], "old": bool(o.get("old", True)),
-                                "file": fn})
+                    c = {"producer": o["producer"], "scenario": o["scenario"], "old": bool(o.get("old", True)), "file": fn}
+                    scenario_flags(c["scenario"])
+                    if isinstance(o.get("kill"), int) and o["kill"] >= 1:
+                        c["kill"] = o["kill"]
+                    if isinstance(o.get("faults"), dict) and all(k in ERRORS and isinstance(v, int) and v >= 1
+                                                                 for k, v in o["faults"].items()):
+                        c["faults"] = o["faults"]
+                    res.append(c)
     return res
 
 
@@ -225,6 +306,7 @@ def harness_cmd(producer, scenario, D, IN):
 
 
 def record_versions(src, base, n, producer, scenario, IN):
+    scenario = base_scenario(scenario)        # the complete versions depend on the payload, not on the environment
     D = new_case(base, n, producer, False)
     rec = os.path.join(os.path.dirname(D), "rec")
     os.makedirs(rec)
@@ -248,7 +330,8 @@ def one_run(job):
     D = new_case(job["base"], job["n"], producer, job["old"])
     cdir = os.path.dirname(D)
     finals = [os.path.join(D, fn) for fn in PRODUCERS[producer]["finals"]]
-    if scenario == "nodir" and producer == "status":
+    T, extra = env_setup(job, D, cdir)
+    if base_scenario(scenario) == "nodir" and producer == "status":
         finals = [os.path.join(D, "missing-dir", "status.json")]
     initial = list_files(D)
     log = os.path.join(cdir, "strace.log")
@@ -256,23 +339,22 @@ def one_run(job):
     for inj in job.get("inject", []):
         cmd += ["-e", "inject=" + inj]
     cmd += harness_cmd(producer, scenario, D, job["IN"])
-    extra = None
     if job.get("close_fail"):
         n, errno_ = job["close_fail"]
-        extra = {"LD_PRELOAD": job["shim"], "C20_CLOSE_FAIL": "%d:%d:%s" % (n, errno_, D)}
+        extra.update({"LD_PRELOAD": job["shim"], "C20_CLOSE_FAIL": "%d:%d:%s" % (n, errno_, D)})
     p = subprocess.run(cmd, cwd=core.VERIF, env=core.impl_env(job["src"], extra), stdout=subprocess.PIPE,
                        stderr=subprocess.STDOUT, timeout=180)
-    res = {"job": {k: job[k] for k in ("producer", "scenario", "old", "inject", "desc", "kind", "close_fail") if k in job},
+    res = {"job": {k: job[k] for k in ("producer", "scenario", "old", "inject", "desc", "kind", "close_fail", "pos") if k in job},
            "rc": p.returncode, "out": p.stdout.decode("utf8", "replace")[-400:]}
     res["shim_fired"] = b"C20SHIM close failed" in p.stdout
     text = open(log, encoding="utf8", errors="surrogateescape").read()
-    ab = st.Abstraction(D, finals)
+    ab = st.Abstraction(D, finals, roots=[T] if T else [])
     ab._nf = len(finals)
     for q in sorted(initial):
         ab.pid_(q)
     res["parse_error"] = None
     try:
-        events, killed, pids = st.parse_log(text, needles=(D, st.hex_needle(D)))
+        events, killed, pids = st.parse_log(text, needles=(D, st.hex_needle(D)) + ((T, st.hex_needle(T)) if T else ()))
         ab.feed(events, pids[0])
     except Exception as e:      # fail closed: an unparsable log is a trace outside the language
         res["parse_error"] = "%s: ...%s" % (type(e).__name__, str(e)[-300:])
@@ -289,6 +371,8 @@ def one_run(job):
         res["op_kinds"][o[0]] = res["op_kinds"].get(o[0], 0) + 1
     # --- model: recogniser verdict per published path + predicted contents of every tracked path
     after = list_files(D)
+    if T:
+        after.update(list_files(T))
     ids = dict(ab.ids)
     for q in after:
         if q not in ids:
@@ -324,14 +408,17 @@ def one_run(job):
     for fpath in finals:
         fn = os.path.basename(fpath)
         data = after.get(fpath)
-        old = old_version(fn) if job["old"] and scenario != "nodir" else None
+        old = old_version(fn) if job["old"] and base_scenario(scenario) != "nodir" else None
         why = reader_check(fn, data, old, job["versions"].get(fn, []),
                            fault=bool(job.get("close_fail")) or any("error=" in x for x in job.get("inject", [])))
         res["reader"][fn] = why
         res["state"][fn] = ("absent" if data is None else "old" if data == old else
                             "new%d" % job["versions"][fn].index(data) if data in job["versions"].get(fn, []) else "OTHER")
+    res["xdev"] = ("real" if job.get("xroot") else "emulated") if "xdev" in scenario_flags(scenario) else None
     if not job.get("keep"):
         shutil.rmtree(cdir, ignore_errors=True)
+        if T and not T.startswith(cdir + "/"):
+            shutil.rmtree(os.path.dirname(T), ignore_errors=True)
     return res
 
 
@@ -362,6 +449,12 @@ def build_shim():
     return so
 
 
+def generate(src):
+    """coq/C20/Gen_Sites.v: the mkstemp sites of the snapshot (dir argument, publishing call); fail closed"""
+    from vt.gen import c20_sites
+    return c20_sites.generate(src)
+
+
 def build():
     build_shim()
     return core.ocaml_build("c20", "C20/Extract.v", "driver.ml")
@@ -376,6 +469,38 @@ SIZED_QUICK = {      # (kill stride, fault strides) with / without a previous ve
 }
 
 
+# Environment variants of the main scenario of every producer (all of them accept an output path).
+#   rel+xdev  bare output name, $TMPDIR on another file system: a temp file made with dir=(dirname(output) or None) lands
+#             in $TMPDIR
+#   xdev      absolute output path, $TMPDIR on another file system: a temp file made without dir= lands in $TMPDIR
+#   dot+xdev  `./name` (dirname is "." - not empty), $TMPDIR on another file system
+#   rel+tmp   bare output name, $TMPDIR a separate directory of the SAME file system (a move is a plain rename)
+# quick: kill stride per producer with a previous version (0 = only the forced positions around every rename); a
+# rejected fault-free trace switches the group to stride 1 + ENOSPC everywhere (see check)
+ENV_QUICK = {
+    "rel+xdev": {"status": 4, "zip": 6, "makezip": 10, "download": 1, "render": 6},
+    "xdev": {"status": 0, "zip": 0, "makezip": 0, "download": 0, "render": 0},
+}
+ENV_THOROUGH = ("rel+xdev", "xdev", "dot+xdev", "rel+tmp")
+
+
+def env_groups(tier):
+    groups = []
+    for prod, spec in PRODUCERS.items():
+        for env in (ENV_THOROUGH if tier == "thorough" else ENV_QUICK):
+            sc = "%s%%%s" % (spec["main"], env)
+            if tier == "thorough":
+                # no fault+kill combinations here (quadratic; the unflagged scenarios have them)
+                groups.append({"producer": prod, "scenario": sc, "old": True, "main": False, "env": env, "kill": 1,
+                               "faults": {"ENOSPC": 1}, "faultable": FAULTABLE, "no_combo": True})
+                groups.append({"producer": prod, "scenario": sc, "old": False, "main": False, "env": env, "kill": 2,
+                               "faults": {}, "faultable": (), "no_combo": True})
+            else:
+                groups.append({"producer": prod, "scenario": sc, "old": True, "main": False, "env": env,
+                               "kill": ENV_QUICK[env][prod], "faults": {}, "faultable": (), "no_combo": True})
+    return groups
+
+
 def plan_groups(tier, sizes=None, corpus=()):
     """per (producer, scenario, previous version?): stride of the kill enumeration and of the fault enumeration per
     error kind (0 = none).  thorough: every tracked syscall, both error kinds, everywhere.  Whatever the stride, the
@@ -386,6 +511,11 @@ def plan_groups(tier, sizes=None, corpus=()):
         g = {"producer": c["producer"], "scenario": c["scenario"], "old": c["old"], "main": False, "corpus": c["file"],
              "kill": 1, "faults": {"ENOSPC": 1, "EIO": 1} if tier == "thorough" else {"ENOSPC": 1},
              "faultable": FAULTABLE if tier == "thorough" else FAULTABLE[:-1]}
+        if tier != "thorough":
+            g["kill"] = c.get("kill", 1)
+            g["faults"] = dict(c.get("faults", g["faults"]))
+        if scenario_flags(c["scenario"]):
+            g["no_combo"] = True
         if (g["producer"], g["scenario"], g["old"]) not in seen:
             seen.add((g["producer"], g["scenario"], g["old"]))
             groups.append(g)
@@ -421,6 +551,10 @@ def plan_groups(tier, sizes=None, corpus=()):
                 else:
                     continue
                 groups.append(g)
+    for g in env_groups(tier):
+        if (g["producer"], g["scenario"], g["old"]) not in seen:
+            seen.add((g["producer"], g["scenario"], g["old"]))
+            groups.append(g)
     return groups
 
 
@@ -436,6 +570,10 @@ def check(run):
                 "fault).  Payload sizes: each main scenario also as `name@N` with N not a multiple of the io buffer / download "
                 "chunk (below one buffer, buffer+-1, k*chunk+r with r<buffer and r>buffer, random; thorough: also the exact "
                 "multiples); the kill/fault positions right before and after every rename are taken whatever the stride.  "
+                "Environments: the main scenario of EVERY producer also as `name%flags`: output path given as a bare file "
+                "name with cwd = output directory (rel) / absolute / `./name` (dot), with $TMPDIR on another file system "
+                "(xdev: rename into the output directory fails with EXDEV) or in a separate directory of the same file "
+                "system (tmp); $TMPDIR is tracked like the work directory.  "
                 "distinct = distinct (producer, scenario, old?, injection); non-trivial = an injection is present")
     run.trusted = [
         "Coq 8.16.1 kernel (coqc); vm_compute in the closed Examples only",
@@ -444,11 +582,16 @@ def check(run):
         "inject=…:signal=KILL kills before the syscall executes",
         "vt/harness/c20_strace.py: parser and abstraction to FsTrace ops on paths below the work directory "
         "(fail closed: anything else touching a tracked path/descriptor becomes Unsupported)",
+        "vt/gen/c20_sites.py: AST reader of the three mkstemp sites (buildzip.create_zip, make_zip, render.main): dir "
+        "argument and publishing call -> Gen_Sites.v; ModelMove.v: CPython's shutil.move = rename, on EXDEV copy onto "
+        "the destination + unlink; mkstemp(dir='') = current directory, dir=None = $TMPDIR; sendfile modelled as writes",
         "hand-written FsTrace model of openat/write/pwrite/lseek/ftruncate/close/rename/unlink (coq/C20/FsTrace.v); "
         "tie = predicted bytes of every tracked path vs the disk after each (killed) run",
         "Linux: rename(2) replaces the target atomically; a SIGKILLed process loses exactly its user-space buffers",
         "Model.bw_ops: write policy of CPython's BufferedWriter (fits -> keep; else flush, >= capacity -> write through); "
         "only the C20_buffered_*/C20_early_rename_* theorems depend on it, for every capacity and chunking",
+        "vt/harness/c20_closefail.c (LD_PRELOAD): close() failing the Linux way; EXDEV between two directories only "
+        "when the machine has no second writable file system (otherwise the kernel's own EXDEV is observed)",
         "harness stubs: make_nuwiki (directory copy), httpx.MockTransport, render.get_writer_from_options/"
         "get_environment/init_tmp_cleaner, dummy writer",
     ]
@@ -456,15 +599,38 @@ def check(run):
         "single producer process per published path (no concurrent second writer of the same temp name)",
         "kill = SIGKILL at a syscall boundary; power loss / fsync durability is not claimed (the code never fsyncs)",
         "syscalls outside the traced set (io_uring, process_vm_writev, ...) are not used on tracked files",
-        "temp file and published path are on one file system (tempfile.mkstemp(dir=dirname(output)) / '<name>.tmp')",
+        "temp file and published path are on one file system: no longer assumed - every producer is run with $TMPDIR "
+        "on another file system and bare / absolute / ./ output names (%xdev environments); what is assumed is that "
+        "the output directory itself lies on one file system",
     ]
     src = core.snapshot()
-    run.check_proofs("C20")
+    run.check_proofs("C20", gen=lambda: generate(src))     # a failing translator / proof does not stop the search below
     exe = build()
     shim = build_shim()
     base = os.path.join(core.scratch(), "c20")
     shutil.rmtree(base, ignore_errors=True)
     os.makedirs(base)
+    xroot = other_fs_root(base)
+    if xroot:
+        import atexit
+        atexit.register(shutil.rmtree, xroot, True)
+    # the %xdev environment must really answer EXDEV to a rename from $TMPDIR into the work directory
+    pj = {"scenario": "probe%xdev", "xroot": xroot, "shim": shim, "n": 0}
+    pD = os.path.join(base, "cases", "00000", "d")
+    os.makedirs(pD)
+    pT, pextra = env_setup(pj, pD, os.path.dirname(pD))
+    prc, pout = core.sh([core.PY, "-c", "import os,sys,errno\nopen(sys.argv[1]+'/x','w').close()\n"
+                         "try:\n os.rename(sys.argv[1]+'/x', sys.argv[2]+'/y'); print('RENAMED')\n"
+                         "except OSError as e: print('EXDEV' if e.errno==errno.EXDEV else 'OTHER %s' % e)\n", pT, pD],
+                        env=dict(os.environ, **pextra), timeout=60)
+    run.obligation("%xdev environment: rename from $TMPDIR into the work directory fails with EXDEV",
+                   prc == 0 and "EXDEV" in pout and os.path.exists(os.path.join(pT, "x")),
+                   "%s; TMPDIR root %s (st_dev %s) vs work directory st_dev %s: %s" % (
+                       "second file system" if xroot else "no second writable file system: EXDEV emulated by the shim",
+                       xroot or os.path.dirname(pD), os.stat(pT).st_dev, os.stat(pD).st_dev, pout.strip()[-100:]))
+    shutil.rmtree(os.path.dirname(pD), ignore_errors=True)
+    if xroot:
+        shutil.rmtree(os.path.join(xroot, "cases"), ignore_errors=True)
     # sizes that decide whether user-space buffered bytes exist at a rename: asked from the snapshot / the scratch fs
     rc, out = core.sh(harness_cmd("params", "-", "-", "-"), cwd=core.VERIF, env=core.impl_env(src), timeout=120)
     try:
@@ -476,8 +642,8 @@ def check(run):
     B = os.stat(base).st_blksize
     if not (1 < B <= 1 << 20):
         B = io_default
-    zip_probe = [int(c["scenario"].split("@")[1]) for c in load_corpus()
-                 if c["producer"] in ("zip", "makezip") and "@" in c["scenario"]]
+    zip_probe = [scenario_size(c["scenario"]) for c in load_corpus()
+                 if c["producer"] in ("zip", "makezip") and scenario_size(c["scenario"]) is not None]
     # make_inputs stays the first consumer of run.rng (the replay regenerates the same inputs from the seed); the
     # sizes are drawn from an independent stream of the same seed
     import random
@@ -505,19 +671,27 @@ def check(run):
     vers = {}
     futs = {}
     for g in groups:
-        key = (g["producer"], g["scenario"])
+        key = (g["producer"], base_scenario(g["scenario"]))
         if key not in futs:
-            futs[key] = pool.submit(record_versions, src, base, nxt(), g["producer"], g["scenario"], IN)
+            futs[key] = pool.submit(record_versions, src, base, nxt(), g["producer"], key[1], IN)
+    rec_failed = []
     for key, f in futs.items():
-        vers[key] = f.result()
+        try:
+            vers[key] = f.result()
+        except Exception as e:       # fail closed for the verdict, but keep searching: the reader still knows the old version
+            vers[key] = {fn: [] for fn in PRODUCERS[key[0]]["finals"]}
+            rec_failed.append("%s/%s: %s" % (key[0], key[1], str(e)[-300:]))
+    run.obligation("every record run (producer without injection, no strace) terminates normally", not rec_failed,
+                   "; ".join(rec_failed)[:1500])
     run.obligation("record runs produce the expected published files",
                    all(vers[(p, PRODUCERS[p]["main"])][fn] for p in PRODUCERS for fn in PRODUCERS[p]["finals"]),
                    "; ".join("%s/%s: %s" % (p, s, {k: len(v) for k, v in d.items()}) for (p, s), d in vers.items()))
 
-    def job(g, inject, kind, desc, close_fail=None):
+    def job(g, inject, kind, desc, close_fail=None, pos=-1):
         return {"src": src, "exe": exe, "shim": shim, "base": base, "n": nxt(), "producer": g["producer"],
                 "scenario": g["scenario"], "old": g["old"], "IN": IN, "inject": inject, "close_fail": close_fail,
-                "versions": vers[(g["producer"], g["scenario"])], "kind": kind, "desc": desc}
+                "versions": vers[(g["producer"], base_scenario(g["scenario"]))], "kind": kind, "desc": desc,
+                "xroot": xroot, "pos": pos}
 
     # --- phase B: fault-free traced runs
     results = []
@@ -554,9 +728,11 @@ def check(run):
         for j in range(len(rel)):
             _i, name, k, _u, _inj = rel[j]
             d = rel_desc(rel, j)
-            if j % g["kill"] == 0 or j in forced:
-                forced_n += j % g["kill"] != 0
-                futs.append((g, j, pool.submit(one_run, job(g, ["%s:signal=KILL:when=%d" % (name, k)], "kill", "kill@" + d))))
+            strided = g["kill"] > 0 and j % g["kill"] == 0
+            if strided or j in forced:
+                forced_n += not strided
+                futs.append((g, j, pool.submit(one_run, job(g, ["%s:signal=KILL:when=%d" % (name, k)], "kill", "kill@" + d,
+                                                            pos=j))))
                 planned["kill"] += 1
             if name in g["faultable"]:
                 for err, stride in g["faults"].items():
@@ -569,9 +745,10 @@ def check(run):
                         if name == "close":
                             # Linux releases the descriptor even when close fails; strace would skip the syscall
                             rank = sum(1 for x in rel[:j + 1] if x[1] == "close")
-                            jb = job(g, [], "fault", dsc, close_fail=(-rank if when.endswith("+") else rank, ERRNO[err]))
+                            jb = job(g, [], "fault", dsc, close_fail=(-rank if when.endswith("+") else rank, ERRNO[err]),
+                                     pos=j)
                         else:
-                            jb = job(g, ["%s:error=%s:when=%s" % (name, err, when)], "fault", dsc)
+                            jb = job(g, ["%s:error=%s:when=%s" % (name, err, when)], "fault", dsc, pos=j)
                         fut = pool.submit(one_run, jb)
                         futs.append((g, j, fut))
                         fault_jobs.append((g, j, name, jb, fut))
@@ -596,6 +773,8 @@ def check(run):
         for g, j, name, jb, fut in fault_jobs:
             if (jb["inject"] and jb["inject"][0].endswith("+")) or (jb["close_fail"] and jb["close_fail"][0] < 0) or not g["old"]:
                 continue
+            if g.get("no_combo"):
+                continue
             if not jb["desc"].startswith("ENOSPC"):
                 continue                # the handlers do not look at errno: one error kind for the combinations
             r = fut.result()
@@ -605,7 +784,7 @@ def check(run):
                 if name2 == name and not jb["close_fail"]:
                     continue            # strace keeps one injection per syscall name
                 jb2 = job(g, jb["inject"] + ["%s:signal=KILL:when=%d" % (name2, k2)], "fault+kill",
-                          jb["desc"] + ";kill@" + rel_desc(rel, j2), close_fail=jb["close_fail"])
+                          jb["desc"] + ";kill@" + rel_desc(rel, j2), close_fail=jb["close_fail"], pos=j2)
                 futs.append(pool.submit(one_run, jb2))
                 planned["fault+kill"] += 1
         for f in futs:
@@ -643,10 +822,22 @@ def check(run):
                                                                 "old" if jb["old"] else "fresh", jb["desc"]),
                         what="after %s a reader of %s finds a file that %s" % (jb["desc"], fn, why),
                         replay={"producer": jb["producer"], "scenario": jb["scenario"], "old": jb["old"],
-                                "inject": jb["inject"], "close_fail": jb.get("close_fail"), "desc": jb["desc"], "final": fn})
+                                "inject": jb["inject"], "close_fail": jb.get("close_fail"), "desc": jb["desc"], "final": fn,
+                                "kind": jb["kind"], "pos": jb.get("pos", -1), "state": r["state"].get(fn),
+                                "xdev": r.get("xdev")})
         if jb["kind"] in ("none", "kill", "fault") and len(run.samples) < 6 and (jb["kind"] != "none" or len(run.samples) < 2):
             if jb["producer"] in ("zip", "status", "download") and (jb["kind"] == "none" or "write" in jb["desc"]):
                 run.sample({"case": tag, "ops": r["n_ops"], "accepted": r["accept"], "final_state": r["state"], "rc": r["rc"]})
+    # minimisation: the failing scenarios are ordered by simplicity - a single SIGKILL before a fault before a
+    # fault followed by a kill; the default payload, then the smaller payload; the earlier position - and reported
+    # in that order (vt/core.py writes replay files for the first ones): the first replay is the smallest
+    # (payload, injection) pair on which the reader found a partial file
+    def simplicity(h):
+        rp = h["replay"]
+        n = scenario_size(rp["scenario"])
+        return ({"kill": 0, "fault": 1}.get(rp.get("kind"), 2), 0 if n is None else 1, n or 0, rp.get("pos", -1),
+                len(scenario_flags(rp["scenario"])))
+    run.hits.sort(key=simplicity)
     summ = {}
     for h in run.hits:
         k = h["fingerprint"].split(":")[1] + " " + h["fingerprint"].split("@")[-1].split("#")[0]
@@ -664,6 +855,11 @@ def check(run):
     dist["groups_switched_to_stride_1"] = upgraded
     dist["payload_sizes"] = dict(sizes, io_buffer=B, download_chunk=chunk)
     dist["corpus"] = [c["file"] for c in corpus]
+    dist["environments"] = {}
+    for r in results:
+        e = r["job"]["scenario"].split("%", 1)[1] if "%" in r["job"]["scenario"] else "abs"
+        dist["environments"][e] = dist["environments"].get(e, 0) + 1
+    dist["tmpdir_other_file_system"] = ("real: " + xroot) if xroot else "emulated (LD_PRELOAD shim answers EXDEV)"
     dist["tracked_syscalls_per_fault_free_run"] = {"%s/%s/%s" % (g["producer"], g["scenario"], "old" if g["old"] else "fresh"):
                                                    len(r["relevant"]) for g, r in base_runs}
     run.coverage["input_distribution"] = dist
@@ -674,7 +870,11 @@ def check(run):
         "with a previous version: SIGKILL and ENOSPC at every tracked syscall (EIO at every 2nd) of the 5 main scenarios; "
         "stride 3 without previous version; stride 4 for the 9 other scenarios; sized download scenarios: every "
         "tracked syscall (kill, ENOSPC) with a previous version, stride 3 without; other sized scenarios stride 2-4; "
-        "the positions right before/after every rename are always included; corpus scenarios stride 1")
+        "the positions right before/after every rename are always included; corpus scenarios stride 1; environment "
+        "variants of the 5 main scenarios: bare name + $TMPDIR on another file system stride 1-10, absolute name + "
+        "$TMPDIR on another file system only the positions around the renames")
+    if xroot:
+        shutil.rmtree(xroot, ignore_errors=True)
 
 
 def base_runs_name(base_runs, g, j):
@@ -700,10 +900,17 @@ def replay(obj):
     IN, _ = make_inputs(random.Random(seed * 1000003 + 20), base,
                         zip_sizes=[n] if n is not None and rp["producer"] in ("zip", "makezip") else [])
     vers = record_versions(src, base, 1, rp["producer"], rp["scenario"], IN)
-    r = one_run({"src": src, "exe": exe, "shim": build_shim(), "base": base, "n": 2, "producer": rp["producer"],
-                 "scenario": rp["scenario"], "old": rp["old"], "IN": IN, "inject": rp["inject"],
-                 "close_fail": rp.get("close_fail"), "versions": vers, "kind": "replay", "desc": rp["desc"]})
-    print(json.dumps({k: r[k] for k in ("rc", "killed", "accept", "reader", "state", "model_diff", "unsupported")}, indent=1))
+    xroot = other_fs_root(base) if "xdev" in scenario_flags(rp["scenario"]) else None
+    try:
+        r = one_run({"src": src, "exe": exe, "shim": build_shim(), "base": base, "n": 2, "producer": rp["producer"],
+                     "scenario": rp["scenario"], "old": rp["old"], "IN": IN, "inject": rp["inject"],
+                     "close_fail": rp.get("close_fail"), "versions": vers, "kind": "replay", "desc": rp["desc"],
+                     "xroot": xroot})
+    finally:
+        if xroot:
+            shutil.rmtree(xroot, ignore_errors=True)
+    print(json.dumps({k: r[k] for k in ("rc", "killed", "accept", "reader", "state", "model_diff", "unsupported", "xdev")},
+                     indent=1))
     bad = any(r["reader"].values())
     print("REPRODUCED" if bad else "not reproduced")
     return 1 if bad else 0
